@@ -40,9 +40,10 @@ def Ctx.maskCols (cx : Ctx) (cs : List (List Nat)) : List (List Nat) :=
   (cs.zip cx.kinds).map (fun p => if p.2 = 'z' then p.1.map (fun _ => 0) else p.1)
 
 def Ctx.evStrings (cx : Ctx) (ev : Ev) : List String :=
-  let d := ev.drops.map (fun i => if cx.kindOf i = 'z' then "dz" else s!"d{i}")
+  -- plain-data fields (`p`) have no destructor and are not tracked: they produce no events
+  let d := (ev.drops.filter (fun i => cx.kindOf i != 'p')).map (fun i => if cx.kindOf i = 'z' then "dz" else s!"d{i}")
   let t := ev.dropT.map (fun i => s!"T{i}")
-  let c := ev.clones.map (fun i => if cx.kindOf i = 'z' then "cz" else s!"c{i}")
+  let c := (ev.clones.filter (fun i => cx.kindOf i != 'p')).map (fun i => if cx.kindOf i = 'z' then "cz" else s!"c{i}")
   (d ++ t ++ c).mergeSort (fun a b => decide (a ≤ b))
 
 def Ctx.fmtEv (cx : Ctx) (ev : Ev) : String := fmtList (cx.evStrings ev)
@@ -61,8 +62,9 @@ structure Ledger where
 def count (x : Nat) (xs : List Nat) : Nat := (xs.filter (· == x)).length
 
 def Ledger.add (cx : Ctx) (l : Ledger) (made : List Nat) (ev : Ev) : Ledger :=
-  let created := l.created ++ (made ++ ev.clones).map cx.maskId
-  let dropped := l.dropped ++ ev.drops.map cx.maskId
+  let tracked (i : Nat) : Bool := cx.kindOf i != 'p'
+  let created := l.created ++ ((made ++ ev.clones).filter tracked).map cx.maskId
+  let dropped := l.dropped ++ (ev.drops.filter tracked).map cx.maskId
   let dd := l.doubleDrop || dropped.any (fun i => count i dropped > count i created)
   { created, dropped, doubleDrop := dd }
 
@@ -570,7 +572,7 @@ partial def parseTree : List String → Option (Shape × List String)
     go [] rest
   | tok :: rest =>
     match tok.toList with
-    | [c] => if "zbslh".toList.contains c then some (.leaf c, rest) else none
+    | [c] => if "zbslhp".toList.contains c then some (.leaf c, rest) else none
     | _ => none
   | [] => none
 
